@@ -364,7 +364,7 @@ func checkSlash(c *core.Ctx) {
 			switch methodName(s) {
 			case "AddTotalSlashed":
 				// base branch passes `slashed`; custom branch passes the sale return
-				if call, ok := core.Unwrap(s.Arg(0)).(*ssa.Call); ok && strings.HasSuffix(core.CalleeName(&call.Call), "CalculateSaleReturn") {
+				if call, ok := core.Unwrap(s.Arg(0)).(*ssa.Call); ok && strings.HasSuffix(core.CalleeName(core.NormCall(&call.Call)), "CalculateSaleReturn") {
 					slashRet = s
 				} else {
 					slashBase = s
@@ -436,7 +436,7 @@ func checkSlash(c *core.Ctx) {
 				// remainder := Set(rewardWithTxs); remainder.Sub(remainder, r) in the loop
 				if core.DependsOn(s.Arg(0), func(v ssa.Value) bool {
 					call, isCall := v.(*ssa.Call)
-					return isCall && core.CalleeName(&call.Call) == "(*math/big.Int).Set"
+					return isCall && core.CalleeName(core.NormCall(&call.Call)) == "(*math/big.Int).Set"
 				}) {
 					ok = true
 				}
